@@ -360,6 +360,10 @@ def jobs(tier, seed):
     S('line', [1.0, 2.0], [E, F_], priors={'0': ('obs', F_), '1': ('str', '1.5(3)')})
     S('line', [1.0, 2.0], [E, F_], priors={'0': ('str', '0.548(23)'), '1': ('str', '1.5(3)')}, key_order=1)
     S('quad', [0.0, 1.0, 2.0], [E, E, E], priors={'2': ('str', '0.10(5)')})
+    # every notation of 'value(error)': error with its own decimal point, integer value, error larger than the value's last digit
+    S('line', [1.0, 2.0], [E, F_], priors={'0': ('str', '1.5(1.2)'), '1': ('str', '2(1)')})
+    S('line', [1.0, 2.0, 3.0], [E, E, F_], priors={'1': ('str', '0.40(0.25)'), '0': ('str', '12.3(4.5)')}, key_order=1)
+    S('line', [1.0, 2.0], [E, F_], priors={'0': ('str', '1.50(12)'), '1': ('str', '-0.7(1.1)')})
     S('line', [1.0, 2.0, 3.0], [E, E, E], priors={'0': ('obs', F_)}, method='migrad')
     # correlated fit with user supplied inverse Cholesky factor
     S('line', [1.0, 2.0, 3.0], [E, E, E], correlated=True)
